@@ -171,10 +171,21 @@ pub fn specs() -> Vec<MSpec> {
         v.push(MSpec { name: format!("pcsaft/4c/opt{}", opt), family: "PcSaft", records: pc4.clone(),
             binary: vec![((0, 1), json!({"k_ij": 0.03})), ((1, 2), json!({"k_ij": -0.02})), ((2, 3), json!({"k_ij": 0.01, "kappa_ab": 0.03, "epsilon_k_ab": 2700.0})), ((0, 3), json!({"k_ij": 0.015}))],
             opt, tscale: 450.0 });
+        {
+            let mut r = recs("pcsaft/gross2001.json", &["hexane"]);
+            r.extend(recs("pcsaft/gross2002.json", &["1-propanol"]));
+            r.extend(recs("pcsaft/gross2006.json", &["acetone"]));
+            r.extend(recs("pcsaft/rehner2020.json", &["water_4C"]));
+            v.push(MSpec { name: format!("pcsaft/assoc-behind4/opt{}", opt), family: "PcSaft", records: r,
+                binary: vec![((0, 1), json!({"k_ij": 0.02})), ((1, 3), json!({"k_ij": -0.03}))], opt, tscale: 520.0 });
+        }
         v.push(MSpec { name: format!("pcsaft/hc3/opt{}", opt), family: "PcSaft", records: recs("pcsaft/gross2001.json", &["propane", "butane", "pentane"]),
             binary: vec![((0, 1), json!({"k_ij": 0.02})), ((0, 2), json!({"k_ij": 0.035}))], opt, tscale: 420.0 });
         v.push(MSpec { name: format!("saftvrmie/3c/opt{}", opt), family: "SaftVRMie", records: recs("saftvrmie/lafitte2013.json", &["methane", "ethane", "propane"]),
             binary: vec![((0, 1), json!({"k_ij": 0.01})), ((1, 2), json!({"k_ij": -0.02, "gamma_ij": 0.01}))], opt, tscale: 300.0 });
+        // SAFT-VR Mie has its own association code: associating components behind and between non-associating ones
+        v.push(MSpec { name: format!("saftvrmie/assoc4/opt{}", opt), family: "SaftVRMie", records: recs("saftvrmie/lafitte2013.json", &["hexane", "ethanol", "carbon dioxide", "1-butanol"]),
+            binary: vec![((0, 1), json!({"k_ij": 0.02})), ((1, 3), json!({"k_ij": -0.01}))], opt, tscale: 500.0 });
         v.push(MSpec { name: format!("saftvrqmie/3c/opt{}", opt), family: "SaftVRQMie", records: recs("saftvrqmie/aasen2019.json", &["hydrogen", "neon", "helium"]),
             binary: vec![((0, 1), json!({"k_ij": 0.105, "l_ij": 0.0})), ((0, 2), json!({"k_ij": 0.08, "l_ij": -0.05}))], opt, tscale: 40.0 });
         let p3 = json!([{"identifier":{"name":"a"},"molarweight":39.9,"model_record":{"sigma":3.4,"epsilon_k":120.0}},
